@@ -17,6 +17,7 @@ INT = {"type": "integer"}
 STR = {"type": "string"}
 DEFS = {"Base": {"type": "object", "properties": {"c": {"type": "boolean"}}, "required": ["c"]},
         "Closed": {"type": "object", "properties": {"a": INT}, "additionalProperties": False},
+        "BaseAp": {"type": "object", "properties": {"c": {"type": "boolean"}}, "required": ["c"], "additionalProperties": INT},
         "En": {"type": "string", "enum": ["x", "y"]},
         "PQ": {"oneOf": [{"type": "object", "properties": {"p": STR}, "required": ["p"]}, {"type": "object", "properties": {"q": INT}, "required": ["q"]}]}}
 FRAGS = {
@@ -28,6 +29,7 @@ FRAGS = {
     "ap_str": {"type": "object", "additionalProperties": STR},
     "ref_base": {"$ref": "#/definitions/Base"},
     "ref_closed": {"$ref": "#/definitions/Closed"},
+    "ref_base_ap": {"$ref": "#/definitions/BaseAp"},   # same members as Base plus a schema-valued additionalProperties
     "obj": {"type": "object"},
     "req_a_only": {"type": "object", "required": ["a"]},
     "extra_req": {"type": "object", "properties": {"extra": INT}, "required": ["extra"]},
